@@ -31,6 +31,10 @@ pub enum Case {
     /// the base case's vectors / rows cyclically repeated up to length `n` (element i = base[i mod m]);
     /// run through the normal oracles, optionally also through the layout checks
     Replicated { base: Box<Case>, n: usize, layouts: bool },
+    /// the base case with every value multiplied by a factor (one factor for everything, or one per
+    /// column for Pearson / multi-target regression): scale-invariant scores must not move, scale-
+    /// equivariant ones must follow, both judged against the definition at a RELATIVE tolerance
+    Scaled { base: Box<Case>, factors: Vec<f64> },
 }
 
 #[derive(Default, Debug)]
